@@ -15,4 +15,6 @@ grep -E "^(VIOLATION|KNOWN-FINDING)" "$d/out.txt" | cut -c1-300
 echo "exit=$rc  (output: $d/out.txt)"
 for f in "$d"/build/replays/*.json; do [ -f "$f" ] && { echo "--- $f"; head -c 900 "$f"; echo; }; done
 rm -rf "$d/repo"
+# keep only the replays and the output (case files of one run are hundreds of MB)
+find "$d/build" -mindepth 1 -maxdepth 1 ! -name replays -exec rm -rf {} + 2>/dev/null
 exit $rc
